@@ -831,7 +831,13 @@ func runFF(o *Opts) *Summary {
 						}
 					}
 				}
-				gossip(o.Steps/3, others)
+				if o.Store == "badger" && t%4 == 0 {
+					// a quick restart: the node is hardly behind, the anchor it is served
+					// is a block its database already holds
+					gossip(4, others)
+				} else {
+					gossip(o.Steps/3, others)
+				}
 			}
 			g.node.VTransition(_state.CatchingUp)
 			w.Emit(g.num, "StateChange", map[string]interface{}{"from": "Babbling", "to": "CatchingUp", "why": "driver"}, nil)
